@@ -99,6 +99,10 @@ Proof.
   rewrite !be32_rd32 by assumption. reflexivity.
 Qed.
 
+(* big-endian value of a byte string of any length *)
+Fixpoint be_val (l : list Z) : Z :=
+  match l with [] => 0 | b :: r => b * 256 ^ zlen r + be_val r end.
+
 (* reading from a list at an offset; [nth_default 0] is only ever used under a proved bound *)
 Definition byte_at (l : list Z) (i : nat) : Z := nth i l 0.
 
